@@ -153,6 +153,18 @@ func countedLoop(u *U, s *Summary, l *Loop) *Counted {
 		}
 	}
 	if ph == nil {
+		// i+K <= n, n-i >= K, ...: the φ one arithmetic step below the comparison
+		for _, op := range []ssa.Value{cmp.X, cmp.Y} {
+			if b, ok := op.(*ssa.BinOp); ok && (b.Op == token.ADD || b.Op == token.SUB) {
+				for _, o2 := range []ssa.Value{b.X, b.Y} {
+					if p, ok := o2.(*ssa.Phi); ok && p.Block() == h && isIntType(p.Type()) {
+						ph = p
+					}
+				}
+			}
+		}
+	}
+	if ph == nil {
 		return nil
 	}
 	ct := &Counted{Phi: ph, Idx: s.Env[ph], Cont: contCond(u, s, l), StepOK: true}
